@@ -278,6 +278,13 @@ def C11(ctx):
     # the hash-identified builders drive the unique table in equality-by-hash mode: the table must then be a set
     # keyed by the FULL 64-bit hash (RobinHood refines SetTable with ByHash = TRUE; wide hashes agreeing on 32 bits)
     model_check(ctx, "RobinHood", "MC_RobinHood_byhash.cfg", "RobinHood in equality-by-hash mode refines SetTable keyed by hash", workers=6)
+    # long histories of ONE hash-identified builder: N pseudo-random 6-variable functions with their conjunctions / disjunctions as
+    # printed by TLC, all built in a single semantic SDD builder (tens of thousands of live nodes): every diagram must denote its set.
+    # An identity narrower than the 64-bit field (truncated or re-mixed table hash) merges different functions in this regime.
+    for k in range(1 if ctx.quick else 3):
+        cfg = mkcfg(ctx, "GenStress_%d.cfg" % k, "SPECIFICATION Spec\nCONSTANTS\n  NV = 6\n  N = %d\n  Seed = %d\nCHECK_DEADLOCK FALSE\n" % (20000 if ctx.quick else 60000, ctx.seed + 10 * k))
+        gen_and_replay(ctx, "GenStress", cfg, "stressvec", "%d pseudo-random 6-variable functions + and / or / neg in one semantic SDD builder per vtree" % (20000 if ctx.quick else 60000),
+                       extra_replay=["--nv", 6], timeout=2400)
     n = 3 if ctx.quick else 16 * TH
     record_and_validate(ctx, [("table_bh_%d" % i, ["record", "table", "--byhash", "only", "--seed", ctx.seed * 1000 + i, "--segments", 25, "--len", 60])
                               for i in range(n)], "TraceTable", "TraceTable.cfg")
